@@ -188,6 +188,32 @@ def unit_combos(a):
     return stats
 
 
+# ------------------------------------------------------------------ (c'') documents that quote the parser's own messages
+def unit_quoted(a):
+    """an unexpected line whose text is, verbatim, the message a later line will produce (documents about parser messages):
+    both faults must still be reported (de-duplication is by identical message, not by resemblance)"""
+    stats = Stats()
+    prefixes = [["Feature: f"], ["Feature: f", " Scenario: s", "  Given x"], ["Feature: f", " Scenario: s", "  Given x", "   | a |"],
+                ["Feature: f", " Rule: r", "  Background:", "   Given b", "   \"\"\"", "   \"\"\""], [], ["@t"], ["Feature: f", " Scenario Outline: o", "  Given <a>", "  Examples:", "   | a |"]]
+    cases = []
+    for pre in prefixes:
+        for gap in ([], [""], ["# c", ""]):
+            for later in ("oops", "  Examples: late", "| stray |", "@a b"):
+                lines = pre + ["PLACEHOLDER"] + gap + [later]
+                ref = ref_parse("\n".join(lines) + "\n")
+                target = len(pre) + 1 + len(gap) + 1
+                msgs = [m for l, c, m in ref.errors if l == target]
+                if not msgs:
+                    continue
+                lines[len(pre)] = msgs[0]
+                cases.append({"sub": "text", "label": "quoted-message", "text": "\n".join(lines) + "\n"})
+                lines2 = list(lines)
+                lines2[len(pre)] = "see " + msgs[0] + " above"
+                cases.append({"sub": "text", "label": "quoted-message", "text": "\n".join(lines2) + "\n"})
+    sweep(stats, cases, check_text)
+    return stats
+
+
 # ------------------------------------------------------------------ (d) bad corpus
 def check_bad(case, stats):
     f = os.path.join(REPO, "testdata", "bad", case["file"])
@@ -255,6 +281,7 @@ def run(ctx):
     ns = 16
     ctx.units("fault-combinations", unit_combos, [{"lengths": [1, 2, 3, 4] if q else [1, 2, 3, 4, 5], "sampled_length": 4 if q else 5, "sample": 2 if q else 3, "seed": ctx.seed,
                                                    "shard": i, "nshards": ns} for i in range(ns)], procs=ns)
+    ctx.units("quoted-messages", unit_quoted, [{}])
     ctx.units("many-faults", unit_many, [{"n": 225 if q else 2000, "seed": ctx.seed, "shard": i} for i in range(8 if q else 16)], procs=16)
     ctx.exhaustive = False
     ctx.extra["exhaustive_part"] = ("42 parser states x 13 line kinds (+ end of file, with and without final newline) as real English text; 42 expected lists vs siblings; all sequences of "
